@@ -98,7 +98,12 @@ macro_rules! impl_bit_value {
                 if val & (1 << (len - 1)) == 0 {
                     val
                 } else {
-                    ((!val) + 1) | (1 << (len - 1))
+                    let magnitude = val.wrapping_neg() & !(-1 << (len - 1));
+                    if magnitude == 0 {
+                        0
+                    } else {
+                        magnitude | (1 << (len - 1))
+                    }
                 }
             }
         }
